@@ -10,9 +10,9 @@ PROOF_MODULES = ["GrpcProofs.Properties.C19"]
 THEOREMS = ["GrpcProofs.C19." + t for t in (
     "tokens_in_range", "shouldRetry_keeps_range", "failure_costs_one", "malformed_pushback_costs_one", "token_touched_iff",
     "success_adds_ratio", "refused_iff_at_or_below_half", "no_throttler_never_refuses", "throttling_valid_iff",
-    "throttling_validation_partial", "throttling_validation_counterexample",
-    "parse_pushback_spec", "pushback_is_delay_partial", "pushback_overflow_counterexample", "pushback_resets_k",
-    "backoff_in_band_partial", "backoff_overflow_counterexample", "k_counts_retries_since_pushback",
+    "throttling_validation",
+    "parse_pushback_spec", "pushback_is_delay", "pushback_resets_k",
+    "backoff_in_band", "backoff_in_band_parser_limits", "k_counts_retries_since_pushback",
     "duration_clamped", "policy_valid_iff", "policy_max_capped")]
 DESIGN_REF = "DESIGN.md section 8, C19"
 TECHNIQUE = ("Lean 4 theorems over exact rationals (invariant over all throttler op sequences, case analysis of shouldRetry in "
@@ -23,15 +23,18 @@ LEVEL_TEXT = ("Machine-checked Lean proofs, for all policies, all throttler hist
               "floor(base*(0.8+0.4r)) with base = min(initial*mult^k, max), k = retries since the last pushback; that the bucket "
               "stays in [0,maxTokens], loses exactly one token for a retryable-code failure or malformed pushback and nothing "
               "otherwise, gains tokenRatio (capped) on success, and refuses exactly when tokens <= maxTokens/2 after the removal. "
-              "The two int64 conversions are modelled with their overflow behaviour; the band/pushback theorems carry the "
-              "no-overflow side condition and the overflow witnesses are proved as counterexamples (known findings F15, F15p).")
+              "The two int64 conversions are modelled with the saturation guards the code has since /repo dab5ad1 and 0ecebdc, so the "
+              "band and pushback theorems hold at full strength (delay = min(pushback ms, MaxInt64 ns); floor(0.8*base) <= delay <= 1.2*base "
+              "for every policy inside the parser's limits), and the throttling range check is proved for every accepted config (e52eadc).")
 LEVEL_NOTE = ("Reading: durations are integer ns, so 'lies in [0.8,1.2] x base' is checked as floor(0.8*base) <= delay <= 1.2*base "
               "(no tolerance; float rounding of math.Pow / the products can only matter for jitter draws within ~1e-16 of 0 or 1). "
               "'removes one token' is exact (x-1 is exact in binary64 on [0,1024]); 'adds tokenRatio' is a float addition and is "
               "checked through the correctly-rounded interval |impl - (tokens+ratio)| <= (tokens+ratio)*2^-53; the throttler model "
               "state is re-synchronised to the implementation's reported bucket after every op. Trusted: the fabricated finished "
               "transport.ClientStream used to feed trailers/status to the real shouldRetry (harness/shims/internal/transport/fakestream.go); "
-              "amd64 float->int64 conversion semantics (out of range -> MinInt64).")
+              "amd64 float->int64 conversion semantics (out of range -> MinInt64, now unreachable behind the guard). A pushback above "
+              "~292 years is read as 'wait MaxInt64 ns' (the largest time.Duration). Findings F15, F15p, F32 are fixed in /repo; their "
+              "witnesses stay in the generator as regression inputs.")
 GAP = "IEEE rounding inside math.Pow and the float products (ideal rationals in the model); subnormal maxTokens; JSON number syntax beyond plain decimals"
 ASSUMPTIONS = ["rand.Float64() returns a value in [0,1)", "time.Duration is int64 ns; int64(float64) out of range yields MinInt64 (amd64)",
                "strconv.Atoi accepts exactly [+-]?[0-9]+ within int64", "synctest virtual time: elapsed time of shouldRetry equals the timer duration (clamped at 0 and at the bubble horizon)"]
